@@ -158,6 +158,93 @@ def show_history(text):
     return bad
 
 
+def instance_handlers(text):
+    """a visit_X handler intercepts the nodes of class X however it came to be an attribute of the
+    visitor: defined in the class body, bound on the instance in __init__, attached later with
+    types.MethodType, or supplied by __getattr__; an instance-level generic_visit is used too"""
+    import types
+    from pycparser import c_ast
+    r = py_parse_obj(text, "")
+    if r[0] != "OK":
+        return None
+    ast = r[1]
+    want = {}
+
+    def walk(n):
+        want[type(n).__name__] = want.get(type(n).__name__, 0) + 1
+        for _, c in n.children():
+            walk(c)
+    try:
+        walk(ast)
+    except RecursionError:
+        return None
+    names = [k for k in ("ID", "Constant", "Decl", "BinaryOp", "TypeDecl", "IdentifierType") if k in want]
+    if not names:
+        return None
+    bad = []
+
+    def check(label, got):
+        exp = {k: want[k] for k in names}
+        if got != exp:
+            bad.append("visitor whose visit_X handlers are %s intercepted %r, the tree has %r" % (label, got, exp))
+
+    class InInit(c_ast.NodeVisitor):
+        def __init__(self):
+            self.got = {}
+            for k in names:
+                setattr(self, "visit_" + k, self._collect)
+
+        def _collect(self, node):
+            k = type(node).__name__
+            self.got[k] = self.got.get(k, 0) + 1
+            self.generic_visit(node)
+    v = InInit()
+    v.visit(ast)
+    check("bound on the instance in __init__", v.got)
+
+    class Plain(c_ast.NodeVisitor):
+        pass
+    v2 = Plain()
+    got2 = {}
+
+    def handler(self, node):
+        k = type(node).__name__
+        got2[k] = got2.get(k, 0) + 1
+        self.generic_visit(node)
+    for k in names:
+        setattr(v2, "visit_" + k, types.MethodType(handler, v2))
+    v2.visit(ast)
+    check("attached to the instance with types.MethodType", got2)
+
+    class ViaGetattr(c_ast.NodeVisitor):
+        def __init__(self):
+            self.got = {}
+
+        def __getattr__(self, name):
+            if name.startswith("visit_") and name[6:] in names:
+                def h(node, _k=name[6:]):
+                    self.got[_k] = self.got.get(_k, 0) + 1
+                    self.generic_visit(node)
+                return h
+            raise AttributeError(name)
+    v3 = ViaGetattr()
+    v3.visit(ast)
+    check("supplied by __getattr__", v3.got)
+    # an instance-level generic_visit
+    v4 = Plain()
+    seen = []
+
+    def gv(self, node):
+        seen.append(type(node).__name__)
+        for _, c in node.children():
+            self.visit(c)
+    v4.generic_visit = types.MethodType(gv, v4)
+    v4.visit(ast)
+    if len(seen) != sum(want.values()):
+        bad.append("an instance-level generic_visit saw %d nodes of %d" % (len(seen), sum(want.values())))
+    return bad
+
+
 def visitor_history(text):
     """visitor classes related by inheritance, used one after the other on the same AST: what a visit_X
     method intercepts must depend only on the class of the visitor, not on which visitors ran before"""
@@ -311,7 +398,7 @@ def classify(replay):
 
 def run(ctx):
     texts = [t for t in progs.pool(ctx, scale=0.3) if len(t) < 6000]
-    ctx.rule("class-level part: 49 classes x every subset of absent node-valued fields, exhaustive, as kernel-checked obligations on regenerated observations and, to name a concrete failing class/field set, evaluated on the live classes against _c_ast.cfg read independently of _ast_gen.py (positional constructor order, attr_names, children() names/objects/order, iteration = children()); tree-level part: visitor classes related by inheritance used in several orders on one AST (interception must not depend on history), copy.copy / copy.deepcopy of a used visitor (the copy intercepts for itself); for the programs of the pool (" + progs.RULE + ") a counting NodeVisitor, a visitor overriding visit_BinaryOp/visit_Decl/visit_Compound, visitors whose visit_X methods return truthy / falsy values of several kinds (the traversal must not depend on them) and show() on the real AST vs the generic model; show() after show() calls that failed at the k-th write, with other options, and re-entrantly from the stream's write()")
+    ctx.rule("class-level part: 49 classes x every subset of absent node-valued fields, exhaustive, as kernel-checked obligations on regenerated observations and, to name a concrete failing class/field set, evaluated on the live classes against _c_ast.cfg read independently of _ast_gen.py (positional constructor order, attr_names, children() names/objects/order, iteration = children()); tree-level part: visitor classes related by inheritance used in several orders on one AST (interception must not depend on history), copy.copy / copy.deepcopy of a used visitor (the copy intercepts for itself), visit_X handlers that are attributes of the instance (bound in __init__, attached with types.MethodType, supplied by __getattr__) and an instance-level generic_visit; for the programs of the pool (" + progs.RULE + ") a counting NodeVisitor, a visitor overriding visit_BinaryOp/visit_Decl/visit_Compound, visitors whose visit_X methods return truthy / falsy values of several kinds (the traversal must not depend on them) and show() on the real AST vs the generic model; show() after show() calls that failed at the k-th write, with other options, and re-entrantly from the stream's write()")
     ncls = class_level(ctx)
     ctx.count(ncls, nontrivial_n=ncls)
     hist_texts = [t for t in texts if "1" in t and "+" in t][:40]
@@ -319,6 +406,9 @@ def run(ctx):
         for why in visitor_history(t) or []:
             ctx.violation(why + " on %r" % t[:80], {"kind": "visitor-history", "text": t})
     ctx.count(len(hist_texts), nontrivial_n=len(hist_texts))
+    for t in hist_texts:
+        for why in instance_handlers(t) or []:
+            ctx.violation(why + " on %r" % t[:80], {"kind": "instance-handlers", "text": t})
     for t in hist_texts:
         for why in show_history(t) or []:
             ctx.violation(why + " on %r" % t[:80], {"kind": "show-history", "text": t})
@@ -349,6 +439,10 @@ def run(ctx):
 def replay(ctx, payload):
     if payload["input"].get("kind") == "visitor-history":
         pr = visitor_history(payload["input"]["text"])
+        print(pr)
+        return not pr
+    if payload["input"].get("kind") == "instance-handlers":
+        pr = instance_handlers(payload["input"]["text"])
         print(pr)
         return not pr
     if payload["input"].get("kind") == "show-history":
